@@ -6,7 +6,7 @@ from lib.coqterm import cbytes, clist, cnat, copt
 
 ID = "C17"
 QUICK_N = 600
-THOROUGH_N = 12000
+THOROUGH_N = 4800
 SHARD = 60
 COQ_PRELUDE = "From MV Require Import Model.CertStore.\n"
 TRANSLATORS = ["certs_const"]
